@@ -227,3 +227,32 @@ def slice_of_slice():
     lhs, rhs = T.bslice(T.bslice(s, a, b), c, d), T.bslice(s, a + c, a + d)
     hyps = T.bytes_axioms(derived=False) + [T.ext_instance(lhs, rhs), 0 <= a, a <= b, b <= T.blen(s), 0 <= c, c <= d, d <= b - a]
     return [('slice of slice', hyps, lhs == rhs)]
+
+
+@lemma('C01.bits_identity')
+def c01_bits_identity():
+    """unpack-then-pack of a bit field leaves the shared integer unchanged:
+    ((((x & M) >> s) << s) & M) | (x & ~M) == x   (free_requires hint of ghost client rt1_bits_member)."""
+    I_, w, s = z3.Ints('I w s')
+    base = [w >= 1, s >= 0, _P(w) >= 2, _P(s) >= 1]
+    M = (_P(w) - 1) * _P(s)
+    a1_I, own, (q1o, q2o, r1o) = _A1(I_, w, s, 'o')
+    # v = (I & M) >> s == own  (lemma C07.unpack_slice)
+    qq, rr, hq = _dm(_band(I_, M), _P(s), 'sh')
+    v = qq
+    out = [('v == own slice', base + a1_I + hq + _hint(qq - own, _P(s)), v == own)]
+    vs = v * _P(s)
+    a1_vs, sl_vs, (q1v, q2v, r1v) = _A1(vs, w, s, 'vs')
+    a = _band(vs, M)
+    b = _band(I_, -M - 1)
+    A2 = [b == I_ - _band(I_, M)]
+    H = base + a1_I + hq + a1_vs + [v == own] + _hint(q1v - v, _P(s)) + _hint(q2v, _P(w))
+    out.append(('a == own * 2^s', H, a == own * _P(s)))
+    a1_a, sl_a, (q1a, q2a, r1a) = _A1(a, w, s, 'a')
+    out.append(('a & M == a', base + a1_I + a1_a + [a == own * _P(s)] + _hint(q1a - own, _P(s)) + _hint(q2a, _P(w)), _band(a, M) == a))
+    a1_b, sl_b, (q1b, q2b, r1b) = _A1(b, w, s, 'b')
+    out.append(('b & M == 0', base + a1_I + A2 + a1_b + [b == I_ - own * _P(s)] + _hint(q1b - q2o * _P(w), _P(s)) + _hint(q2b - q2o, _P(w)),
+                _band(b, M) == 0))
+    A3 = [z3.Implies(z3.And(_band(a, M) == a, _band(b, M) == 0), _bor(a, b) == a + b)]
+    out.append(('identity', base + a1_I + A2 + A3 + [a == own * _P(s), _band(a, M) == a, _band(b, M) == 0], _bor(a, b) == I_))
+    return out
